@@ -18,6 +18,12 @@ VERIF = os.path.dirname(os.path.dirname(os.path.abspath(__file__)))
 COQ = os.path.join(VERIF, "coq")
 BUILD = os.path.join(VERIF, "build")
 REPO = os.environ.get("VERIF_REPO", "/repo")
+COQ_SRC = COQ
+if os.path.realpath(REPO) != "/repo":
+    # a tree other than /repo (a scratch worktree carrying a candidate change) is judged in its own copy of the Coq
+    # sources and its own build directory: the regenerated tables of two trees never meet, whatever runs concurrently
+    BUILD = os.path.join(VERIF, "build", "alt")
+    COQ = os.path.join(BUILD, "coq")
 SHARD_BYTES = 140_000
 NPROC = int(os.environ.get("VERIF_NPROC", min(16, os.cpu_count() or 4)))
 
@@ -49,7 +55,17 @@ class BuildLock:
         self.f.close()
 
 
+def sync_sources():
+    """other-tree runs: refresh the private copy of the .v sources (mtimes kept, so make rebuilds only what changed)"""
+    if COQ == COQ_SRC:
+        return
+    os.makedirs(COQ, exist_ok=True)
+    subprocess.run(["rsync", "-a", "--exclude=Generated/Tables.v", "--include=*/", "--include=*.v", "--include=_CoqProject",
+                    "--exclude=*", COQ_SRC + "/", COQ + "/"], check=True)
+
+
 def regenerate_tables():
+    sync_sources()
     from . import gen_tables
     os.makedirs(os.path.join(COQ, "Generated"), exist_ok=True)
     return gen_tables.write_if_changed(os.path.join(COQ, "Generated", "Tables.v"))
